@@ -21,7 +21,9 @@ FORBIDDEN = re.compile(r"\bsorry\b|\badmit\b|^axiom |native_decide|bv_decide|imp
 TRUSTED_BASE = [
     "Lean 4.33.0 kernel (lake build); axioms allowed: propext, Classical.choice, Quot.sound — anything else fails the audit",
     "lean/JellyModel/Spec.lean as the reading of the Jelly rules (spec/rdf.proto comments + property statements)",
-    "harness/gen_tables.py (translator for finite facts) and the differential harness (correspondence check)",
+    "harness/gen_tables.py (translator for finite facts), harness/gen_translate.py + lean/JellyModel/PyPrelude.lean (translator for "
+    "the lookup classes: Python ast -> Lean, and the meaning it gives to OrderedDict / deque / set / exceptions) and the differential "
+    "harness (correspondence check)",
     "the Lean compiler for the driver executable jellydrv; CPython 3.12; protobuf/upb, rdflib modelled not verified",
 ]
 
@@ -38,6 +40,7 @@ def sh(cmd, cwd=None, timeout=3600):
 class BuildResult:
     def __init__(self):
         self.tables_ok = True
+        self.translator_ok = True
         self.driver_ok = True
         self.proof_ok = True
         self.log = ""
@@ -63,6 +66,12 @@ def build(pid: str, modules: list[str], theorems: list[str], tier: str = "quick"
         res.log += out
         if rc != 0:
             res.tables_ok = False
+        # translator for the lookup classes (Python source -> Lean): a source outside the translated fragment is a broken tie
+        rc, out = sh([sys.executable, str(VERIF / "harness" / "gen_translate.py")], cwd=VERIF / "harness")
+        res.log += out
+        if rc != 0:
+            res.tables_ok = False
+            res.translator_ok = False
         rc, out = sh(["lake", "build", "JellyModel", "jellydrv"], cwd=LEAN_DIR)
         res.log += out
         if rc != 0:
@@ -291,7 +300,7 @@ def finish(ctx: Ctx, b: BuildResult, spec: dict) -> int:
         violations = 1
         path = write_replay(pid, "tie_broken", dict(
             property=pid, kind="no-failing-input-found",
-            proof_build_ok=b.proof_ok, tables_ok=b.tables_ok, failed_modules=b.failed_modules,
+            proof_build_ok=b.proof_ok, tables_ok=b.tables_ok, translator_ok=b.translator_ok, failed_modules=b.failed_modules,
             missing_theorems=b.missing, forbidden=b.forbidden_hits,
             disallowed_axioms={t: a for t, a in b.axioms.items() if not set(a) <= ALLOWED_AXIOMS},
             first_disagreements=ctx.disagreements[:3], build_log_tail=b.log[-3000:], seed=ctx.seed, tier=ctx.tier))
